@@ -5,6 +5,7 @@ import (
 	"math"
 	"math/big"
 	"reflect"
+	"sort"
 	"strings"
 	"time"
 
@@ -131,10 +132,18 @@ func cOptMap(m map[any]any, isNil bool) string {
 	return "(Some " + cFlatMap(m) + ")"
 }
 
+// cFlatMap renders a Go map as flat pairs, sorted by the rendered key so that
+// the rendering of a value is deterministic (snapshots are compared as strings).
 func cFlatMap(m map[any]any) string {
-	items := make([]string, 0, 2*len(m))
+	type kv struct{ k, v string }
+	pairs := make([]kv, 0, len(m))
 	for k, v := range m {
-		items = append(items, cGv(k), cGv(v))
+		pairs = append(pairs, kv{cGv(k), cGv(v)})
+	}
+	sort.Slice(pairs, func(i, j int) bool { return pairs[i].k < pairs[j].k })
+	items := make([]string, 0, 2*len(m))
+	for _, p := range pairs {
+		items = append(items, p.k, p.v)
 	}
 	return cList(items)
 }
